@@ -511,7 +511,10 @@ class HtmlTreeView(HtmlView):
     if isinstance(enable_summary, bool):
       return enable_summary
     assert enable_summary is None
-    if not enable_summary_for_str and isinstance(value, str):
+    # A named string (e.g. a dict entry rendered with summary-style keys) still
+    # needs its summary, otherwise its key would not be displayed at all.
+    if (not enable_summary_for_str and isinstance(value, str)
+        and name is None):
       return False
     if name is None and title is None and (
         isinstance(value, (int, float, bool, type(None)))
